@@ -26,7 +26,7 @@ SPEC = {
                     "reference reader written from tucan.ebnf + Hill's rule; its notion of the language is cross-checked against the EBNF element order at start-up"],
     "monitors_required": ["c10_differential", "ebnf_crosscheck"],
     "required_obs": {"quick": ["accepted", "reject_reason/lexer", "reject_reason/syntax", "reject_reason/index", "reject_reason/self-loop", "reject_reason/duplicate-attribute",
-                               "cov_all_118_symbols_accepted", "cov_mutation/insert", "cov_mutation/delete", "cov_mutation/replace", "cov_mutation/transpose"]},
+                               "cov_all_118_symbols_accepted", "cov_mutation/insert", "cov_mutation/delete", "cov_mutation/replace", "cov_mutation/transpose", "cov_boundary/boundary:count-one", "cov_boundary/boundary:n+1-first", "cov_boundary/boundary:dup-attr-same", "cov_boundary/boundary:carbon-late", "cov_sentence_with_100_or_more_atoms"]},
     "watchdog_s": {"quick": 900, "thorough": 5400},
 }
 PLAN = {"quick": {"sentences": 6000, "mut_per": 10, "exhaustive_sentences": 0},
@@ -76,6 +76,13 @@ def run(ctx):
             from ..oracles.elements import hill_order
             syms = hill_order(set(rng.sample(SYMBOLS_BY_Z, 12)) | {SYMBOLS_BY_Z[(k * 3 + j + 40 * ctx.shard) % 118] for j in range(3)})
             s = GS.emit([(x, rng.choice([1, 2, 3])) for x in syms], [(1, 2)], [])
+        elif k % 25 == 7:
+            s = GS.random_sentence(rng, 400)  # three-digit counts and indices (99/100/101 boundaries)
+            try:
+                if sum(c for _, c in tg.recognise(s).formula_items) >= 100:
+                    ctx.count("cov_sentence_with_100_or_more_atoms")
+            except tg.Reject:
+                pass
         else:
             s = GS.random_sentence(rng, 40)
         r = feed(ctx, s, "sentence")
@@ -90,6 +97,8 @@ def run(ctx):
             m, kind = GS.mutate(s, rng)
             if rng.random() < 0.15:
                 m, kind2 = GS.mutate(m, rng)
+            if kind == "noop":
+                continue
             ctx.seen("cov_mutation", kind.split(":")[0])
             if kind.startswith("boundary"):
                 ctx.seen("cov_boundary", kind)
